@@ -105,8 +105,8 @@ class C19(F.PropCheck):
         if kind in self.SPECIAL: return self.SPECIAL[kind](self, rng, cid)
         tags = ['dev', 'dev:' + kind]
         if kind == 'shutter':
-            c = C8.CHECK.gen_sys(rng, cid, tier, boot=1)
-            cfg = list(c.evs[0][1]) + [0, 0]; evs = list(c.evs[1:])
+            c = C8.CHECK.gen_sys(rng, cid, tier, boot=1, legacy_buttons=True)
+            cfg = list(c.evs[0][1])[:14] + [0, 0]; evs = list(c.evs[1:])
             marks = []; t = 0
             for (k, a, _) in evs:
                 if k == 'ADV': t += a[0]
